@@ -151,6 +151,13 @@ def run(ctx):
                 toks = pre + [lang.BAD_TOK, lang.BAD_TOK] + ([lang.RP] if ptext.endswith('(') else [])
                 text = ptext + w1 + ctx.rng.choice([' ', '  ', '\t']) + w2 + (')' if ptext.endswith('(') else '')
                 cases.append(text_case(toks, text, ctx.rng.choice(['parse', 'parse', 'load', 'enforce'])))
+    # a parenthesis glued to the wrong end of a word is part of the word (a colon-less check), not a parenthesis
+    B, LPp, RPp, NT = lang.BAD_TOK, lang.LP, lang.RP, lang.NOT
+    for toks, text in (([B, RPp], '@( )'), ([NT, B, RPp], 'not !( )'), ([B], '@('), ([B, RPp], 'x( )'), ([LPp, B], '( )@'), ([LPp, NT, B], '(not )!'),
+                       ([LPp, B, RPp], '( )@)'), ([B, LPp], ')@ ('), ([B, B], '@( )@'), ([B, RPp, lang.OR, lang.TRUE_TOK], '!( ) or @'),
+                       ([lang.TRUE_TOK, lang.AND, B, RPp], '@ and @( )'), ([LPp, B, RPp, RPp], '(@( ))')):
+        for route in ('parse', 'load', 'enforce'):
+            cases.append(text_case(toks, text, route))
     n_text = len(cases)
     # list rules whose members are not kind:match (the empty string, constant signs glued together,
     # keywords, parentheses - nothing is tokenized inside a list member): each behaves as '!'
